@@ -12,6 +12,9 @@ HERE = os.path.dirname(os.path.dirname(os.path.abspath(__file__)))
 PROPS = {
     "h1": "C01 C03 C06 C08 C09 C20", "h2": "C02 C13 C06", "h3": "C02 C06", "h4": "C02 C13 C08 C09", "h5": "C14 C05",
     "h6": "C05 C15", "h7": "C06 C05 C15", "h8": "C11", "h9": "C12", "h10": "C18",
+    "g1": "C01 C03 C06 C08 C09 C20", "g2": "C01 C03 C06 C08 C09 C20", "g3": "C01 C03 C08 C09", "g4": "C01 C02 C08 C09 C13", "g5": "C13 C06 C08 C09",
+    "g6": "C02 C06 C08 C09", "g7": "C09 C02", "g8": "C04 C03 C20 C06", "g9": "C04 C05 C20", "g10": "C16", "g11": "C05 C20 C15", "g12": "C05 C20 C15",
+    "g13": "C15", "g14": "C11 C08",
 }
 
 
@@ -20,7 +23,7 @@ def sh(cmd, **kw):
 
 
 def main():
-    ids = [a for a in sys.argv[1:] if not a.startswith("--")] or sorted(PROPS, key=lambda x: int(x[1:]))
+    ids = [a for a in sys.argv[1:] if not a.startswith("--")] or sorted(PROPS, key=lambda x: (x[0], int(x[1:])))
     opts = dict(a[2:].split("=", 1) for a in sys.argv[1:] if a.startswith("--") and "=" in a)
     wt = opts.get("worktree", "/tmp/wt_harmless")
     if not os.path.isdir(wt):
